@@ -1,4 +1,5 @@
 import RQ.Driver.Proto
+import RQ.Model.ParPush
 import RQ.Spec.Abs
 import RQ.Model.Args
 import RQ.Spec.Backups
@@ -71,11 +72,42 @@ def parseArgs (args : List String) (_ : Unit) : Args.Inv := Args.parse (Args.tok
 def sameFS (a b : FS) : Bool :=
   a.nodes.length == b.nodes.length && a.nodes.all (fun (k, n) => b.lookup k == some n)
 
+/-- `cmd_push` with the PARALLEL driver, through the model `Par.parApplyPatches` (Model/ParPush.lean): both
+phases run under round-robin schedules long enough for every worker to finish — by
+`C06_parallel_eq_sequential_tree` the result does not depend on the schedule.  `none`: the schedules were
+too short (a defect of this driver, reported as a mismatch). -/
+def parPushInv (inv : Args.Inv) (w : World) : Option (Outcome × World) :=
+  if inv.bad then some (.error, w)
+  else match plan inv.cfg w.fs with
+    | .refuse => some (.error, w)
+    | .nothingToDo => some (.allApplied, w)
+    | .apply range =>
+      if inv.badLate then some (.error, w) else
+      let n := inv.threads
+      let total := match Par.parseRange w.fs inv.cfg range with
+        | some patches => (patches.map (fun p => p.2.length)).foldl (· + ·) 0
+        | none => 0
+      let rr := fun (k : Nat) => (List.replicate k (List.range n)).flatten
+      match Par.parApplyPatches w inv.cfg range n (rr (2 * total + 4)) (rr (25 * total + 30)) with
+      | none => none
+      | some (.error (.err, w')) => some (.error, w')
+      | some (.error (.panic, w')) => some (.panic, w')
+      | some (.ok (w', final)) =>
+        if inv.cfg.dryRun then some (if final == range.length then .allApplied else .notAll, w')
+        else match saveApplied w' ((range.take final).map (·.name)) with
+          | .error (_, w'') => some (.error, w'')
+          | .ok w'' => some (if final == range.length then .allApplied else .notAll, w'')
+
 def runInvs (fs : FS) : List String → List String
   | [] => []
   | a :: rest =>
     let inv := parseArgs (if a == "-" then [] else a.splitOn " ") ()
-    let (out, w) := Args.pushInv inv { fs := fs }
+    -- a parallel invocation goes through the model of the parallel driver
+    let (out, w) := if inv.threads > 1 then
+        (match parPushInv inv { fs := fs } with
+         | some r => r
+         | none => (.panic, { fs := { nodes := [], nextIno := 0 } }))      -- schedules too short: shows up as a mismatch
+      else Args.pushInv inv { fs := fs }
     -- the patch reported as failing ("Patch <name> FAILED"): the first one of the range that did not apply
     let failed : String := match out, plan inv.cfg fs with
       | .notAll, .apply range =>
